@@ -51,13 +51,21 @@ def gen(rng, budget, tier):
     yield from gen_tail(rng, TAIL_BUDGET[tier])
     # the witness of the repaired defect first
     yield "c13.script 1 S0,S1,C1,S2,F0,F2"
+    yield "c13.script 2 D0,D1,D2,D3,D4,D5,S6,S7,F6,F7"     # sessions gone before their reads start
     for _ in range(budget):
         cap = rng.choice([1, 1, 2, 3])
         n = rng.choice([2, 3, 4, 6])
         ops, started, ended, cancelled = [], [], set(), set()
         for _ in range(rng.randrange(3, 4 * n)):
             r = rng.random()
-            if r < 0.45 and len(started) < n:
+            if r < 0.12 and len(started) < n + 4:
+                # a read whose session is gone before it starts (dead on arrival), slot free or not
+                i = len(started)
+                started.append(i)
+                ended.add(i)
+                cancelled.add(i)
+                ops.append(f"D{i}")
+            elif r < 0.45 and len(started) < n:
                 i = len(started)
                 started.append(i)
                 ops.append(f"S{i}")
